@@ -315,6 +315,7 @@ theorem exec_noof (M : Machine) (F : FnTable) (obj : HostVal) : ∀ f, NoOofAt M
                     | ok p => simp [hb] at h
         all_goals (simp only [Outcome.failed.injEq] at h; rw [← h.1]; simp [NotOof])
       case funcDef n ps b => simp [execE] at h
+      case localE n => simp [execE] at h
       case call fn args =>
         simp only [execE] at h
         generalize hc : callWith (decide (depth ≥ maxCallDepth)) (fun b e o => execSs M F obj (depth + 1) f b e o) M F obj fn.str args env out = co at h
